@@ -699,7 +699,9 @@ func stringJoinFunc(q, arg1 query) func(query, iterator) interface{} {
 			}
 		}
 
-		q = functionArgs(q)
+		// work on a private clone: q belongs to the closure shared by every
+		// evaluation of the compiled expression and must not be reassigned
+		q := functionArgs(q)
 		test := predicate(q)
 		var parts []string
 		switch v := q.Evaluate(t).(type) {
